@@ -4,7 +4,7 @@ import sys, os, shutil, json, re
 wt, k, caught, how = sys.argv[1], sys.argv[2], sys.argv[3], sys.argv[4]
 prop = wt[:3]
 src = "/tmp/wt/%s/BREAK/%s" % (wt, k)
-idx = int(k) + (2 if wt.endswith("b") else 0) + (4 if wt.endswith("c") else 0) + (6 if wt.endswith("d") else 0) + (8 if wt.endswith("e") else 0)
+idx = int(k) + (2 if wt.endswith("b") else 0) + (4 if wt.endswith("c") else 0) + (6 if wt.endswith("d") else 0) + (8 if wt.endswith("e") else 0) + (10 if wt.endswith("f") else 0)
 dst = "/verif/seeded/%s-%d" % (prop, idx)
 k = str(idx)
 os.makedirs(dst, exist_ok=True)
@@ -15,7 +15,7 @@ readme = open(os.path.join(src, "README.md")).read() if os.path.exists(os.path.j
 log = open("/tmp/wt/confirm_%s.log" % wt).read() if os.path.exists("/tmp/wt/confirm_%s.log" % wt) else ""
 meta = {
     "property": prop,
-    "source": "independent sub-agent given only the property text and a scratch worktree (/tmp/wt/%s), nothing from /verif" % wt + ("; round 2: additionally told which break ideas earlier agents had already used (not what /verif detects) and asked for history-dependent triggers" if wt[-1] in "bcde" else ""),
+    "source": "independent sub-agent given only the property text and a scratch worktree (/tmp/wt/%s), nothing from /verif" % wt + ("; round 2: additionally told which break ideas earlier agents had already used (not what /verif detects) and asked for history-dependent triggers" if wt[-1] in "bcdef" else ""),
     "needs_to_manifest": (re.search(r"(?is)(needs?|manifest)[^\n]*\n(.{0,900})", readme).group(0)[:900] if re.search(r"(?is)(needs?|manifest)", readme) else "see README.md"),
     "confirmed_by_me": {"demo_on_HEAD_exit": 0, "pinned_suite_with_patch": "317/317 passed", "demo_with_patch_exit": 1, "how": "tools/confirm_seeded.sh in the scratch worktree (apply, BUILD_AND_TEST.sh, run_demo.sh, revert)"},
     "check_result": {"caught": caught == "yes", "detail": how, "command": "tools/mutest.sh seeded/%s-%s/patch.diff %s (quick tier budget)" % (prop, k, prop)},
